@@ -13,6 +13,7 @@ import (
 
 func init() {
 	register(&PropertyCheck{ID: "C03", Level: "other", Run: checkC03, Canaries: []Canary{
+		{Name: "decoder-rejects-valid-option-bytes", Rule: "R3.4", Where: "Subscribe", Edits: []Edit{{"subscribe.go", "\t\tb.get(&f.options)\n", "\t\tb.get(&f.options)\n\t\tif b.err == nil && f.options > bits(OptRetain2) {\n\t\t\tb.err = ErrMissingData\n\t\t}\n"}}},
 		{Name: "authdata-removed-from-auth-map", Rule: "R3.1", Where: "Auth", Edits: []Edit{{"auth.go", "\t\tAuthData:     func() wireType { return &p.authData },\n", ""}}},
 		{Name: "descending-ids-rejected", Rule: "R3.2", Where: "ConnAck", Edits: []Edit{{"buffer.go", "\tvar id Ident\n\tfor b.i < end {\n\t\tb.get(&id)", "\tvar id, last Ident\n\tfor b.i < end {\n\t\tlast = id\n\t\tb.get(&id)\n\t\tif id < last {\n\t\t\tb.err = fmt.Errorf(\"properties out of order\")\n\t\t\treturn\n\t\t}"}}},
 		{Name: "zero-value-property-rejected", Rule: "R3.3", Where: "wuint16", Edits: []Edit{{"wiretypes.go", "\t*v = wuint16(binary.BigEndian.Uint16(data))\n\treturn nil", "\t*v = wuint16(binary.BigEndian.Uint16(data))\n\tif *v == 0 {\n\t\treturn fmt.Errorf(\"zero value on the wire\")\n\t}\n\treturn nil"}}},
@@ -310,8 +311,10 @@ func (p *Prog) specFrames(tn string) []specFrame {
 			var fl []string
 			for k := 0; k < 2; k++ {
 				t, r := strTok(fmt.Sprintf("filter%d", k), 3)
-				toks = append(toks, t, byt("options", int64(k+1)))
-				fl = append(fl, fmt.Sprintf("{%s %d}", r, k+1))
+				// the largest valid option bytes: retain handling 2, RAP, NL, QoS 2 — and retain handling 1, RAP, QoS 1
+				opt := []int64{0x2E, 0x19}[k]
+				toks = append(toks, t, byt("options", opt))
+				fl = append(fl, fmt.Sprintf("{%s %d}", r, opt))
 			}
 			exp["Filters()"] = "[" + strings.Join(fl, " ") + "]"
 		case "Unsubscribe":
